@@ -324,7 +324,7 @@ fn read_server_addresses(src: &mut impl io::Read) -> Result<[Option<SocketAddr>;
         }
     }
 
-    if server_addresses.is_empty() {
+    if server_addresses[0].is_none() {
         return Err(io::Error::new(
             io::ErrorKind::InvalidData,
             "ConnectToken does not have a server address",
